@@ -64,7 +64,11 @@ func runC04(c *Ctx) {
 		classify := func(b int) (string, string) {
 			ev := &ssaEval{c: c, bind: map[ssa.Value]sv{}, mem: map[string]sv{}}
 			var calls []string
-			ev.noInline = func(*ssa.Function) bool { return true }
+			// the scanner's methods are modelled (peek, skip, comment readers); a predicate on the byte
+			// that is a plain function (a named character class) is evaluated in place
+			ev.noInline = func(f *ssa.Function) bool {
+				return f.Signature.Recv() != nil && pointsTo(f.Signature.Recv().Type(), scannerT)
+			}
 			ev.load = func(ld *ssa.UnOp, addr sv) (sv, bool) {
 				if bt, ok := ld.Type().Underlying().(*types.Basic); ok && bt.Info()&types.IsInteger != 0 {
 					return intV(1), true // not at the start of a line
